@@ -27,6 +27,7 @@ var Themes = []string{
 	"batch-omitted-object", "batch-object-listed-twice", "batch-unknown-oid", "batch-empty-objects-list",
 	"batch-hash-algo", "upload-missing-with-action", "upload-missing-no-action", "adapter-begin-error",
 	"dry-run", "adapter-422", "retry-later", "expired-action", "many-after-abort",
+	"dup-during-delivery",
 }
 
 func pick(r *rand.Rand, xs ...string) string { return xs[r.Intn(len(xs))] }
@@ -204,6 +205,37 @@ func Gen(seed int64, idx int, prof string) Case {
 		c.BatchSize = 1 + r.Intn(2)
 		c.AddGapUs = 300
 		sort.Ints(c.AddOrder)
+	case "dup-during-delivery":
+		// repeated ids added while earlier results are being delivered to a slow watcher
+		// through a tiny watcher channel (capacity = batch size)
+		c.BatchSize = 1 + r.Intn(2)
+		c.Watchers = 1 + r.Intn(2)
+		c.SlowWatch = true
+		c.AddGapUs = 100 + r.Intn(600)
+		c.AddOrder = nil
+		for i := range c.Objs {
+			c.Objs[i].Adds = 2 + r.Intn(3)
+		}
+		// first occurrence of each object in order, duplicates trailing shortly behind
+		remaining := make([]int, len(c.Objs))
+		for i := range c.Objs {
+			remaining[i] = c.Objs[i].Adds
+		}
+		for i := range c.Objs {
+			c.AddOrder = append(c.AddOrder, i)
+			remaining[i]--
+			for back := 0; back <= i; back++ {
+				if remaining[back] > 0 && r.Intn(2) == 0 {
+					c.AddOrder = append(c.AddOrder, back)
+					remaining[back]--
+				}
+			}
+		}
+		for i := range c.Objs {
+			for ; remaining[i] > 0; remaining[i]-- {
+				c.AddOrder = append(c.AddOrder, i)
+			}
+		}
 	case "adapter-begin-error":
 		c.BeginError = true
 	case "dry-run":
